@@ -454,9 +454,7 @@ class AmplitudeProxy(BackendProxy):
 
     def to_tensor(self, val, Ds=None, dtype='float64', **kw):
         if has_sym(val):
-            T = np.empty(len(val), dtype=object)
-            for i, x in enumerate(val):
-                T[i] = x
+            T = np.array(val, dtype=object)
             return T if Ds is None else T.reshape(Ds)
         return self._b.to_tensor(val, Ds=Ds, dtype=dtype, **kw)
 
